@@ -60,17 +60,18 @@ def variants(kind):
     r = R()
     t, u = tabs()
     Sum, Count = r["fn.Sum"], r["fn.Count"]
+    sq = lambda Q: Q.from_(u).select(r["fn.Max"](u.b))  # noqa: E731  (a scalar subquery used as a term)
     if kind == "select":
         return {
             "select": [lambda q, Q: q.select(t.a, Sum(t.b).as_("total")), lambda q, Q: q.select("a", "b"), lambda q, Q: q.select(t.star),
                        lambda q, Q: q.select(t.a.as_("b"), t.b.as_("a"))],
             "orderby": [lambda q, Q: q.orderby("total"), lambda q, Q: q.orderby("b"), lambda q, Q: q.orderby(Sum(t.b).as_("total")),
-                        lambda q, Q: q.orderby(t.a, order=r["Order"].desc)],
-            "groupby": [lambda q, Q: q.groupby("a"), lambda q, Q: q.groupby("total"), lambda q, Q: q.groupby(t.a.as_("total")), lambda q, Q: q.groupby(1)],
+                        lambda q, Q: q.orderby(t.a, order=r["Order"].desc), lambda q, Q: q.orderby(sq(Q))],
+            "groupby": [lambda q, Q: q.groupby("a"), lambda q, Q: q.groupby("total"), lambda q, Q: q.groupby(t.a.as_("total")), lambda q, Q: q.groupby(1), lambda q, Q: q.groupby(sq(Q))],
             "where": [lambda q, Q: q.where(u.a > 1), lambda q, Q: q.where(t.id.isin(Q.from_(u).select(u.id)))],
             "join": [lambda q, Q: q.join(u).using("id"), lambda q, Q: q.left_join(u).on(t.id == u.id),
                      lambda q, Q: q.join(Q.from_(u).select(u.id).as_("s")).on_field("id")],
-            "having": [lambda q, Q: q.having(Sum(t.b) > 3)],
+            "having": [lambda q, Q: q.having(Sum(t.b) > 3), lambda q, Q: q.having(Count(t.a) > sq(Q))],
             "limit": [lambda q, Q: q.limit(0)],
             "offset": [lambda q, Q: q.offset(0)],
             "with": [lambda q, Q: q.with_(Q.from_(u).select(u.a), "c2")],
@@ -79,7 +80,7 @@ def variants(kind):
         }
     if kind == "update":
         return {
-            "set": [lambda q, Q: q.set("a", 1), lambda q, Q: q.set(t.a, u.b)],
+            "set": [lambda q, Q: q.set("a", 1), lambda q, Q: q.set(t.a, u.b), lambda q, Q: q.set(t.a, sq(Q))],
             "where": [lambda q, Q: q.where(t.id == u.id)],
             "returning": [lambda q, Q: _returning(q, t.a), lambda q, Q: _returning(q, "*"), lambda q, Q: _returning(q, t.a, "b")],
         }
@@ -93,7 +94,7 @@ def variants(kind):
             "columns": [lambda q, Q: q.columns(t.id, t.a)],
             "insert": [lambda q, Q: q.insert((1, 2), (3, 4))],
             "on_conflict": [lambda q, Q: q.on_conflict(t.id), lambda q, Q: q.on_conflict()],
-            "do_update": [lambda q, Q: q.do_update("a")],
+            "do_update": [lambda q, Q: q.do_update("a"), lambda q, Q: q.do_update("a", sq(Q))],
             "returning": [lambda q, Q: _returning(q, t.a), lambda q, Q: _returning(q, "*"), lambda q, Q: _returning(q, "id", "a")],
         }
     if kind == "create":
